@@ -1405,11 +1405,16 @@ void scen_communicate() {
   if (!g.foreign_failure.empty()) fail("communicate/closed_descriptor_it_does_not_own", threw ? "exception_path" : "normal_path", g.foreign_failure);
   if (g.intruder_ran && !g.intruder_failure.empty()) fail("communicate/second_caller_disturbed", s.family, "a second thread called run_process while communicate was parked at the return of a read(): " + g.intruder_failure);
   if (threw) {
-    bool is_timeout = what.find("timed out") != string::npos;
-    if (!is_timeout) fail("communicate/unexpected_exception", s.family, "communicate threw '" + what.substr(0, 120) + "'");
-    if (!deadline) fail("communicate/timed_out_without_deadline", s.family, "communicate threw 'timed out' although no deadline was given");
+    // Whether an exception reports the deadline is decided by the simulated clock, not by its wording: with a
+    // deadline that has passed, throwing is the promised outcome, whatever the message says.
+    bool says_timeout = what.find("timed out") != string::npos || what.find("timeout") != string::npos || what.find("deadline") != string::npos || what.find("did not finish") != string::npos;
+    if (!deadline) {
+      if (says_timeout) fail("communicate/timed_out_without_deadline", s.family, "communicate threw '" + what.substr(0, 120) + "' although no deadline was given");
+      fail("communicate/unexpected_exception", s.family, "communicate threw '" + what.substr(0, 120) + "'");
+    }
     if (t_return - t_start < deadline) {
-      fail("communicate/timed_out_early", s.family, "communicate threw 'timed out' after " + std::to_string(t_return - t_start) + " us of simulated time with a deadline of " + std::to_string(deadline) + " us");
+      if (says_timeout) fail("communicate/timed_out_early", s.family, "communicate threw '" + what.substr(0, 120) + "' after " + std::to_string(t_return - t_start) + " us of simulated time with a deadline of " + std::to_string(deadline) + " us");
+      fail("communicate/unexpected_exception", s.family, "communicate threw '" + what.substr(0, 120) + "' before its deadline had passed");
     }
     VS_PROBE("communicate_deadline_passed");
     return;
